@@ -76,10 +76,16 @@ def added_members(v, w, path=()):
             yield from added_members(a, b, path + (i,))
 
 
-def filled_from(x, allowed):
-    """x is an allowed default, or a container all of whose leaves/containers are."""
+def filled_from(x, allowed, depth=0):
+    """x is an allowed default (possibly with nested defaults filled in), or a container all of whose
+    leaves/containers are."""
     if any(x == a and type(x) is type(a) or (num(x) and num(a) and x == a) for a in allowed):
         return True
+    if depth < 4 and isinstance(x, (dict, list)):
+        for a in allowed:
+            if type(a) is type(x) and a not in ({}, []) and contained(a, x) is None and \
+                    all(filled_from(y, allowed, depth + 1) for _, y in added_members(a, x)):
+                return True
     if isinstance(x, dict):
         return all(filled_from(y, allowed) for y in x.values())
     if isinstance(x, list):
